@@ -362,6 +362,10 @@ SETFAULT_QUICK = [
     SetFaultCfg("small", "NTR", "greater", "less", "flat", 3, "basic"),
     SetFaultCfg("small", "TR", "stateful", "less", "flat", 4, "exact"),
     SetFaultCfg("flat", "NTR", "less", "greater", "v", alloc="exact", std="c++20"),  # C++20 dispatch of range arguments (merge hands a move-iterator range to the vector)
+    # asymmetric copies (see vec.py)
+    SetFaultCfg("flat", "NTRNCC", "less", "greater", "v", alloc="basic"),
+    SetFaultCfg("flat", "TRNCA", "less", "greater", "s4", alloc="exact"),
+    SetFaultCfg("small", "NTRNCA", "less", "greater", "flat", 3, "basic"),
 ]
 SETFAULT_THOROUGH = [
     # no std::vector underlying here: after a throwing copy std::vector::insert leaves moved-from elements behind (its own basic guarantee);
